@@ -12,6 +12,7 @@ def gen_inputs(ctx):
     rng, q = ctx.rng, ctx.quick
     out = []
     accounts = [0, 1, 2 ** 31 - 2, 2 ** 31 - 1] + [rng.randrange(2 ** 31)]
+    special = [44, 49, 84, 83696968]           # accounts that look like another path level
     intervals = [(0, 0), (0, 1), (5, 5), (7, 8), (2 ** 31 - 2, 2 ** 31), (5, 3)] + \
                 [(a, a + 3) for a in (rng.randrange(2 ** 31 - 4),)] + [(0, 4)]
     n = 0
@@ -26,6 +27,8 @@ def gen_inputs(ctx):
                 combos = [(a, i) for a, i in zip(accounts, intervals)] + [(0, iv) for iv in intervals[len(accounts):]]
                 if q:
                     combos = combos[:5] + [(0, (5, 3)), (2 ** 31 - 1, (2 ** 31 - 2, 2 ** 31))]
+            if k in (0, 3):
+                combos += [(a, (0, 1)) for a in (special if (k == 0 or not q) else special[:0])]
             for acct, (st, en) in combos:
                 inp = dict(src, net=net, account=acct, start=B(st.to_bytes(5, 'big')), end=B(en.to_bytes(5, 'big')), json=(k < 3 and n % 2 == 0))
                 n += 1
